@@ -817,9 +817,23 @@ pub fn run(tier: &str, seed: u64) -> i32 {
                     "second paragraph".into(),
                     // characters that need escaping in a doc attribute, a comment terminator, braces, non-ASCII
                     " with \"quotes\", a \\ backslash and */ {braces} \u{e9}\u{fc}\u{4e16}".into(),
+                    "".into(),
                 ];
             }
-            prog.defs[D_N].docs = vec![" indented".into()];
+            // round 10 (C09-m19): a blank line FIRST and a blank line LAST (what a closing `///` leaves in the registry):
+            // exactly the registry's lines, also the empty ones at either end
+            prog.defs[D_N].docs = vec!["".into(), " indented".into(), "".into()];
+            for d in prog.defs.iter_mut() {
+                if let Body::Enum(vs) = &mut d.body {
+                    for (k, v) in vs.iter_mut().enumerate() {
+                        if k % 2 == 0 {
+                            v.docs.push("".into());
+                        } else {
+                            v.docs.insert(0, "".into());
+                        }
+                    }
+                }
+            }
             // docs on FIELDS: the generator does not emit them when docs are on; they must not appear when docs are off
             for d in prog.defs.iter_mut() {
                 match &mut d.body {
